@@ -846,6 +846,9 @@ func contains(xs []string, x string) bool {
 // R-closure-shared: inside a function literal that outlives the call that created it (it is returned or handed to a
 // router/handler), writes to variables captured from the enclosing function - assignment, append to the captured slice
 // or an alias of it, index or map store - are writes to state shared by every invocation (and every request).
+// sliceRuleOnlyFiles, when set, restricts RunSliceAndClosureWrites to functions declared in files with these suffixes.
+var sliceRuleOnlyFiles []string
+
 func RunSliceAndClosureWrites(c *Ctx, pkgs []string, allowParam []allowSite) {
 	in := map[string]bool{}
 	for _, p := range pkgs {
@@ -860,6 +863,18 @@ func RunSliceAndClosureWrites(c *Ctx, pkgs []string, allowParam []allowSite) {
 	for _, fi := range c.P.Funcs {
 		if fi.Body == nil || (!in[shortPkg(fi.Pkg.PkgPath)] && !fi.Ctl) {
 			continue
+		}
+		if len(sliceRuleOnlyFiles) > 0 && !fi.Ctl {
+			fn := c.P.Fset.Position(fi.Pos()).Filename
+			keep := false
+			for _, suf := range sliceRuleOnlyFiles {
+				if strings.HasSuffix(fn, suf) {
+					keep = true
+				}
+			}
+			if !keep {
+				continue
+			}
 		}
 		info := fi.Pkg.TypesInfo
 		// --- R-param-slice (declarations only; literals are covered through their own parameters too)
